@@ -67,6 +67,36 @@ func (s *dsys) le(x, y string, c int64) { s.add(x, y, c) }
 
 // implied: does the system imply x - y <= c ?  (Bellman-Ford shortest path
 // from y to x in the constraint graph: edge y->x with weight c for x-y<=c)
+// bound: the least c with x - y <= c that the constraints imply (ok=false: none).
+func (s *dsys) bound(x, y string) (int64, bool) {
+	if x == y {
+		return 0, true
+	}
+	dist := map[string]int64{y: 0}
+	n := map[string]bool{x: true, y: true}
+	for _, k := range s.cons {
+		n[k.x], n[k.y] = true, true
+	}
+	for i := 0; i < len(n)+1; i++ {
+		changed := false
+		for _, k := range s.cons {
+			d, ok := dist[k.y]
+			if !ok {
+				continue
+			}
+			if old, ok := dist[k.x]; !ok || d+k.c < old {
+				dist[k.x] = d + k.c
+				changed = true
+			}
+		}
+		if !changed {
+			break
+		}
+	}
+	d, ok := dist[x]
+	return d, ok
+}
+
 func (s *dsys) implied(x, y string, c int64) bool {
 	if x == y {
 		return c >= 0
@@ -684,6 +714,36 @@ func (tb *TB) phiBounds(s *dsys, ph *ssa.Phi) {
 		n := &dsys{cons: append(append([]dcons{}, s.cons...), dcons{x, y, c}), neq: s.neq, eqs: s.eqs, copies: s.copies}
 		n.tighten()
 		return n
+	}
+	// constant bounds: the merge is no larger (smaller) than the largest (smallest) constant bound
+	// of its incoming values, each under the facts of its own edge (not at loop headers: there
+	// the induction above is needed)
+	if !header {
+		okU, okL := true, true
+		var maxU, minL int64
+		for i, e := range edges {
+			if u, ok := sys[i].bound(e.sym, "0"); ok {
+				if i == 0 || u+e.off > maxU {
+					maxU = u + e.off
+				}
+			} else {
+				okU = false
+			}
+			if l, ok := sys[i].bound("0", e.sym); ok {
+				// 0 - e.sym <= l  =>  e.sym >= -l
+				if i == 0 || -l+e.off < minL {
+					minL = -l + e.off
+				}
+			} else {
+				okL = false
+			}
+		}
+		if okU {
+			s.le(self.sym, "0", maxU-self.off)
+		}
+		if okL {
+			s.le("0", self.sym, self.off-minL)
+		}
 	}
 	seen := map[lin]bool{}
 	for _, c := range cands {
